@@ -488,6 +488,19 @@ def dispatch_chain(body: Sequence[ast.stmt]):
         if not isinstance(s, ast.If):
             break
         ch, els = if_chain(s)
+        if (
+            len(ch) == 1
+            and not els
+            and isinstance(ch[0][0], ast.UnaryOp)
+            and isinstance(ch[0][0].op, ast.Not)
+            and ch[0][1]
+            and isinstance(ch[0][1][-1], ast.Raise)
+            and i + 1 < len(stmts)
+            and not any(isinstance(x, ast.If) for x in stmts[i + 1 :])
+        ):
+            # `if not T: raise ...` followed by the work for T: the last test of the dispatch, written as a guard
+            out.append((ch[0][0].operand, list(stmts[i + 1 :])))
+            return out, list(ch[0][1])
         out.extend(ch)
         if els:
             if all(stmt_terminates(b) for _, b in ch) and i + 1 < len(stmts) and stmt_terminates(els):
